@@ -168,7 +168,9 @@ def expF (q : Rat) : FI :=
 enclose exp r in fixed point and scale by the exact power 2^e — this keeps full RELATIVE precision for
 very negative q (results far below 2^-prec) -/
 def expQ (q : Rat) : I :=
-  if ratAbs q ≤ 1 then (expF q).toI else
+  if ratAbs q ≤ 1 then (expF q).toI
+  else if q < -800 then ⟨0, pow2 (-1100)⟩      -- exp q < e^-800 < 2^-1100: far below every float64; avoids million-bit powers of two
+  else
   let e : Int := (q * (14427 / 10000)).floor
   let r := sub (ofRat q) (scale (e : Rat) ln2)          -- q − e ln 2, a tiny interval around a number in about [0, 0.7]
   let lo := (expF r.lo).toI.lo
